@@ -118,6 +118,9 @@ class Work:
             e.update(env)
         if deque:
             e["JAVA_TOOL_OPTIONS"] = (e.get("JAVA_TOOL_OPTIONS", "") + " -Dtlc2.tool.queue.IStateQueue=StateDeque").strip()
+        # the JVM's default maximum heap is a quarter of the machine for EVERY TLC; trace validations run 16 at a time
+        if "-Xmx" not in e.get("JAVA_TOOL_OPTIONS", ""):
+            e["JAVA_TOOL_OPTIONS"] = (e.get("JAVA_TOOL_OPTIONS", "") + (" -Xmx3g" if workers == 1 else " -Xmx16g")).strip()
         cmd = ["tlc", "-workers", str(workers), "-metadir", os.path.join(d, "meta"), "-config", name + ".cfg"]
         ce = os.path.join(d, "ce.json")
         if dump:
